@@ -1,7 +1,10 @@
 (* Evaluation of the C06 model on harness-written cases (correspondence check).
    One case = one block executed by the real VMExecutor loop on an in-memory AccountDB:
    universe = addresses 0..n-1 (0 = FeeAccount), balances before, escrow before, the block as model
-   operations (EVM ledger traces as recorded at the StateDB interface), and what was observed after. *)
+   operations, and what was observed after. A contract transaction carries the opcode-level event list recorded
+   while the real EVM ran it (StateDB recorder + the jump-table wrappers of src/vm/verif_c06.go); the model lowers
+   it to ledger primitives (Model.lower) and must reproduce (a) every per-address balance, the stake change and the
+   escrow total after the block and (b) the value every STAKE / UNSTAKE / UNSTAKEALL pushed, in order. *)
 From Coq Require Import List ZArith NArith Bool.
 From V.C06 Require Import Model.
 Import ListNotations.
@@ -12,7 +15,8 @@ Definition universe_of (l : list Z) : list addr := map N.of_nat (seq 0 (length l
 
 Record obs := { o_bal : list Z;       (* balances after, same order *)
                 o_locked : Z;         (* change of the total stake (x 10^18) held by the registry *)
-                o_sched : Z }.        (* escrow total after, over the tracked heights *)
+                o_sched : Z;          (* escrow total after, over the tracked heights *)
+                o_results : list Z }. (* values pushed by the stake opcodes, in execution order over the block *)
 
 Fixpoint list_eqb (a b : list Z) : bool :=
   match a, b with
@@ -21,19 +25,81 @@ Fixpoint list_eqb (a b : list Z) : bool :=
   | _, _ => false
   end.
 
-Definition check (c : list Z * list (N * addr * Z) * list op * obs) : bool :=
-  let '(init, sched0, ops, o) := c in
+(* a block item: a contract transaction with its observed opcode-level run, or any other model operation *)
+Inductive hop :=
+| HC (src : addr) (json_ok : bool) (gas : gas_field) (value : option Z) (creation : bool) (nz z : Z)
+     (otr : list oev) (evm_ok : bool) (gas_used : Z) (stale : option Z)
+| HO (o : op).
+
+Definition tx_of (h : hop) : op :=
+  match h with
+  | HC src jok gas value creation nz z otr eok gu stale =>
+    OTx (contract_tx src jok gas value creation nz z (lower_trace otr) eok gu stale)
+  | HO o => o
+  end.
+
+Definition results_of (h : hop) (l : led) : list Z :=
+  match h with
+  | HC src jok gas value creation nz z otr eok gu stale =>
+    match evm_start (contract_tx src jok gas value creation nz z (lower_trace otr) eok gu stale) l with
+    | Some l1 => oev_results repaired otr (l1, [])
+    | None => []
+    end
+  | HO _ => []
+  end.
+
+Fixpoint run_h (hs : list hop) (l : led) (acc : list Z) : led * list Z :=
+  match hs with
+  | [] => (l, acc)
+  | h :: r => run_h r (exec_op repaired (tx_of h) l) (acc ++ results_of h l)
+  end.
+
+(* ---- the block reward against its specification (Model.reward_weights): every scheduled amount must be the exact
+   rational share within the float64 error of the code: relative 2^-40 plus 16 wei (the code rounds each factor to
+   float64 - a few units of 2^-53 - and truncates every added term to a wei) ---- *)
+Definition rinfo := (Z * Z * addr * list (addr * Z) * list (addr * Z))%type.   (* height, blocks per epoch, castor account,
+                                                                               active proposers, group members (account, stake) *)
+Fixpoint lookup (m : list (addr * Z)) (a : addr) : Z :=
+  match m with [] => 0 | (x, v) :: r => if N.eqb x a then v else lookup r a end.
+
+Definition close (obs num den : Z) : bool :=
+  Z.abs (obs * den - num) * 1099511627776 <=? num + 16 * den * 1099511627776.
+
+Definition reward_ok (ri : rinfo) (rs : list (addr * Z)) : bool :=
+  let '(height, bpe, castor, ps, vs) := ri in
+  let epoch := height / bpe in
+  let num := reward_num epoch in
+  let den := reward_den epoch bpe * reward_weight_total ps vs in
+  let ws := reward_weights castor ps vs in
+  forallb (fun p => close (lookup rs (fst p)) (num * snd p) den) ws
+  && forallb (fun p => close (snd p) (num * lookup ws (fst p)) den) rs
+  && (sum_snd ws <=? reward_weight_total ps vs).
+
+Fixpoint rewards_of (hs : list hop) : list (addr * Z) :=
+  match hs with
+  | [] => []
+  | HO (OReward _ rs) :: _ => rs
+  | _ :: r => rewards_of r
+  end.
+
+Definition check (c : list Z * list (N * addr * Z) * list hop * obs * option rinfo) : bool :=
+  let '(init, sched0, hs, o, ri) := c in
   let U := universe_of init in
   let l0 := {| bal := bal_of init; locked := 0; sched := sched0; burned := 0 |} in
-  let l := run repaired ops l0 in
+  let '(l, res) := run_h hs l0 [] in
   list_eqb (map (bal l) U) (o_bal o)
   && (locked l =? o_locked o)
   && (sched_total (sched l) =? o_sched o)
+  && list_eqb res (o_results o)
+  && match ri with None => true | Some r => reward_ok r (rewards_of hs) end
   (* the model's own property on this instance *)
-  && (wealth U l + burned l =? wealth U l0 + fold_right (fun o acc => minted o + acc) 0 ops)
+  && (wealth U l + burned l =? wealth U l0 + fold_right (fun h acc => minted (tx_of h) + acc) 0 hs)
   && forallb (fun a => 0 <=? bal l a) U.
 
 (* short constructors for the case files *)
-Definition V := EValue. Definition K := ESuicide. Definition S := ESnap. Definition R := ERevert.
-Definition L := ELock. Definition Un := EUnstake. Definition TC := contract_tx.
-Definition Ob (b : list Z) (lk sc : Z) : obs := {| o_bal := b; o_locked := lk; o_sched := sc |}.
+Definition V (f t : addr) (v : Z) := OPrim (EValue f t v).
+Definition K (a b : addr) := OPrim (ESuicide a b).
+Definition S (id : N) := OPrim (ESnap id).
+Definition R (id : N) := OPrim (ERevert id).
+Definition St := OStake. Definition Us := OUnstake. Definition Ua := OUnstakeAll. Definition A := OAuthCall.
+Definition Ob (b : list Z) (lk sc : Z) (res : list Z) : obs := {| o_bal := b; o_locked := lk; o_sched := sc; o_results := res |}.
